@@ -10,6 +10,7 @@ import (
 	"io/fs"
 	"os"
 	"strings"
+	"sync"
 	"sync/atomic"
 	"testing/fstest"
 	"time"
@@ -395,10 +396,32 @@ const (
 	// Runtime.Close has started and is blocked inside the close notification of ANOTHER module (holding
 	// the store's lock) when the call's context is cancelled
 	causeCancelUnderBlockedRuntimeClose
+	// the call's context is of the embedder's own type (or derived from one): its Done channel closes and
+	// its Err is then an error of its own, neither context.Canceled nor context.DeadlineExceeded
+	causeOwnError
 	numCauses
 )
 
-var causeNames = []string{"cancel", "deadline", "close-from-goroutine", "runtime-close", "cancel-with-custom-cause", "timeout-with-custom-cause", "cancel-while-runtime-close-is-blocked-in-another-modules-notification"}
+// ownCtx is a context.Context that is not built on the standard library's cancellation.
+type ownCtx struct {
+	context.Context
+	done chan struct{}
+}
+
+var errOwn = errors.New("server is shutting down")
+
+func (c *ownCtx) Done() <-chan struct{} { return c.done }
+func (c *ownCtx) Err() error {
+	select {
+	case <-c.done:
+		return errOwn
+	default:
+		return nil
+	}
+}
+func (c *ownCtx) Deadline() (time.Time, bool) { return time.Time{}, false }
+
+var causeNames = []string{"cancel", "deadline", "close-from-goroutine", "runtime-close", "cancel-with-custom-cause", "timeout-with-custom-cause", "cancel-while-runtime-close-is-blocked-in-another-modules-notification", "context-of-its-own-type-done-with-its-own-error"}
 
 type scenario struct {
 	Swallow bool // host-entered loop: the host function swallows the inner call's error and returns
@@ -486,7 +509,7 @@ func runScenario(t *tape.Tape, cfg sim.Config, listen bool) (res sim.Result) {
 	yield := cfg.Class == "yielding"
 	pad := tape.Pick(t, []int{0, 1, 7, 40})
 	cause := t.Choose(numCauses)
-	already := t.Chance(1, 10) && (cause == causeCancel || cause == causeDeadline || cause == causeCancelCause || cause == causeTimeoutCause)
+	already := t.Chance(1, 10) && (cause == causeCancel || cause == causeDeadline || cause == causeCancelCause || cause == causeTimeoutCause || cause == causeOwnError)
 	k := 1 + t.Choose(6)
 	code := uint32(1 + t.Choose(200))
 	// host-entered loop: the host callback may re-enter the guest with a context DERIVED from the call's
@@ -583,7 +606,7 @@ func runScenario(t *tape.Tape, cfg sim.Config, listen bool) (res sim.Result) {
 	}
 	fire := func() {
 		switch cause {
-		case causeCancel:
+		case causeCancel, causeOwnError:
 			cancel()
 		case causeCancelCause:
 			cancelCause(errors.New("application-specific reason"))
@@ -743,6 +766,22 @@ func runScenario(t *tape.Tape, cfg sim.Config, listen bool) (res sim.Result) {
 		if already {
 			cancelCause(errors.New("application-specific reason"))
 		}
+	case causeOwnError:
+		own := &ownCtx{Context: bg, done: make(chan struct{})}
+		var once sync.Once
+		cancel = func() { once.Do(func() { close(own.done) }) }
+		callCtx = own
+		if t.Chance(1, 2) {
+			// a standard context derived from it: its Err is the parent's error
+			var c2 context.CancelFunc
+			callCtx, c2 = context.WithCancel(own)
+			defer c2()
+			res.Stat("probe.standard_context_derived_from_own_context", 1)
+		}
+		if already {
+			cancel()
+			<-callCtx.Done()
+		}
 	default:
 		callCtx, cancel = context.WithCancel(bg)
 		if already {
@@ -802,12 +841,15 @@ func runScenario(t *tape.Tape, cfg sim.Config, listen bool) (res sim.Result) {
 	}
 	want := code
 	switch cause {
-	case causeCancel, causeCancelCause, causeCancelUnderBlockedRuntimeClose:
+	case causeCancel, causeCancelCause, causeCancelUnderBlockedRuntimeClose, causeOwnError:
 		want = sys.ExitCodeContextCanceled
 	case causeDeadline, causeTimeoutCause:
 		want = sys.ExitCodeDeadlineExceeded
 	case causeRuntimeClose:
 		want = 0
+	}
+	if cause == causeOwnError && ee.ExitCode() == sys.ExitCodeDeadlineExceeded {
+		want = sys.ExitCodeDeadlineExceeded // no code is defined for an error of the embedder's own: either one
 	}
 	if ee.ExitCode() != want {
 		res.Fail("wrong-exit-code", "%+v: exit code %#x, expected %#x", sc, ee.ExitCode(), want)
